@@ -213,6 +213,7 @@ class Harness(object):
         except Exception as e:
             res['exc'] = type(e).__name__
             res['exc_msg'] = str(e)[:200]
+            self.run.probe('op_raised.%s.%s.%s' % (kind, op.get('what', ''), type(e).__name__))
             if os.environ.get('VERIF_DEBUG'):
                 import traceback; traceback.print_exc(file=sys.stderr)
         res['steps'] = self.steps_executed - before
